@@ -82,6 +82,13 @@ def kwargs_from_call(
         resolved_kwargs[param_name] = param_value
 
     # Override the defaults with the values actually supplied to the function.
+    #
+    # The keyword arguments are set before the positional ones: a keyword argument can bear the same name as
+    # a parameter supplied positionally only if that parameter is positional-only (and the keyword argument is
+    # captured by ``**kwargs``), in which case the positional argument is the value of the parameter.
+    for key, val in kwargs.items():
+        resolved_kwargs[key] = val
+
     for i, func_arg in enumerate(args):
         if i < len(param_names):
             resolved_kwargs[param_names[i]] = func_arg
@@ -94,9 +101,6 @@ def kwargs_from_call(
             # see https://github.com/nedbat/coveragepy/issues/1041.
             # The branch was covered manually in ``tests.test_checkers``.
             pass  # pragma: no cover
-
-    for key, val in kwargs.items():
-        resolved_kwargs[key] = val
 
     return resolved_kwargs
 
